@@ -126,6 +126,7 @@ def run(ctx):
     corpus = common.VERIF / "corpus" / "c16_defs.json"
     if corpus.exists():
         defs += json.loads(corpus.read_text())
+    defs += defgen.systematic()
     for i in range(n_fam):
         defs += g.definition(i)
     scratch = ctx["build"] / f"c16_{ctx['seed']}_{ctx['tier']}"
@@ -211,7 +212,7 @@ def run(ctx):
     if canon is not None and src is not None:
         import subprocess
         from ..values import from_json, to_coq, coq_bytes
-        mods = sorted({m for m in by_module if m.split(".")[2].startswith("gen")})
+        mods = sorted({m for m in by_module if m.split(".")[2] not in ("request_header", "response_header")})
         env = common.child_env()
         env["PYTHONPATH"] = str(src)
         p = subprocess.run([common.PY, str(common.VERIF / "harness" / "c16_worker.py")],
